@@ -61,7 +61,7 @@ func execHistory(hist []int) (key string, applicable bool, viol []vrt.Violation)
 	envsim.SetupExec()
 	var w *envsim.World
 	applicable = true
-	x := vrt.RunControlled(vrt.Config{Preempt: envsim.InterComponent}, func() {
+	x := vrt.RunControlled(vrt.Config{Preempt: envsim.InterComponent, NoLockPoints: true}, func() {
 		w = envsim.New(probes(), "CONFIGURED")
 		for i, oi := range hist {
 			o := ops[oi]
